@@ -103,7 +103,7 @@ func runConc(t *testing.T, prop string, race bool) {
 	judge := func(prog interface{}, v string, labels map[string]int, nt bool) string {
 		if v != "" {
 			vp, msg := split(v)
-			if vp == prop || (race && false) {
+			if strings.Contains(","+vp+",", ","+prop+",") {
 				st.Failed()
 				b, _ := json.Marshal(prog)
 				var m map[string]interface{}
@@ -174,8 +174,12 @@ func runConc(t *testing.T, prop string, race bool) {
 	rapid.Check(t, func(rt *rapid.T) {
 		var prog interface{}
 		kind := "pool"
-		if race {
-			switch rapid.IntRange(0, 5).Draw(rt, "workload") {
+		if race || prop == "C15" || prop == "C16" {
+			w := rapid.IntRange(0, 5).Draw(rt, "workload")
+			if !race {
+				w = 1
+			}
+			switch w {
 			case 0:
 				kind = "me"
 				prog = &MEProg{Kind: "me", RUs: rapid.SampledFrom([]int{0, 50, 1000}).Draw(rt, "r"), DUs: rapid.SampledFrom([]int{0, 50, 1000}).Draw(rt, "d"), G: rapid.IntRange(2, 6).Draw(rt, "g"), Iter: rapid.IntRange(20, 200).Draw(rt, "iter"), Seed: rapid.Uint64().Draw(rt, "seed"), Pert: 2}
@@ -197,6 +201,8 @@ func runConc(t *testing.T, prop string, race bool) {
 
 func TestC10(t *testing.T)     { runConc(t, "C10", true) }
 func TestConcC02(t *testing.T) { runConc(t, "C02", false) }
+func TestConcC15(t *testing.T) { runConc(t, "C15", false) }
+func TestConcC16(t *testing.T) { runConc(t, "C16", false) }
 func TestConcC03(t *testing.T) { runConc(t, "C03", false) }
 func TestConcC05(t *testing.T) { runConc(t, "C05", false) }
 func TestConcC06(t *testing.T) { runConc(t, "C06", false) }
